@@ -539,6 +539,19 @@ class Model:
                 out[f.name] = f
         return [f for f in out.values() if not f.is_initvar and not f.is_classvar]
 
+    def init_order(self, c: ClassInfo) -> list[str]:
+        """Positional parameter order of the dataclass-generated ``__init__`` (fields and InitVars with init=True)."""
+        out: dict[str, FieldInfo] = {}
+        for k in reversed(self.mro(c)):
+            if not k.is_dataclass:
+                continue
+            for f in k.own_fields:
+                if f.name in out:
+                    out[f.name] = f  # a redefinition keeps the original position
+                else:
+                    out[f.name] = f
+        return [f.name for f in out.values() if not f.is_classvar and f.flag("init", True) and not f.flag("kw_only", False)]
+
     def abstract_names(self, c: ClassInfo) -> set[str]:
         """Names still abstract on class ``c``."""
         names: set[str] = set()
